@@ -13,7 +13,7 @@ META = dict(
            "which field is assigned/deleted, which copy operation, which fields were explicitly set: symbolic",
     configs="the full option cube eq x order x frozen x unsafe_hash x explicit __hash__ (32 classes, created by class statements at "
             "import, the solver picks the vector) with per-field compare=False / hash=False / repr=False; stdlib dataclass twins for "
-            "the 16 (eq, frozen, unsafe_hash, explicit) vectors; a generic class for 'ignoring generic parameters'",
+            "the 16 (eq, frozen, unsafe_hash, explicit) vectors; a generic class for 'ignoring generic parameters' with concrete subclasses of a parameterisation; copies with their own set-field record",
     stubs=[],
     outside=["float fields with nan (x == x is false by the statement's own definition of equality)", "fields of unorderable types"],
     assumptions=["oracle: tuple comparison of the compare-fields; dataclasses.dataclass for the hash rule table"],
